@@ -82,12 +82,13 @@ theorem fixedDepth_builder_valid (q : Qty) (w d cap : Nat) (cells : List Nat) (h
     rw [sem.2] at hx ⊢
     rw [← hxy]; exact hx
 
-/-- **Range builder** (`from_maxdepth_ranges`, `from_cells`, the time / frequency range builders): for non-empty
-    in-domain ranges the MOC built is VALID at the builder depth. -/
+/-- **Range builder** (`from_maxdepth_ranges`, `from_cells`, the time / frequency range builders): for
+    in-domain ranges — EMPTY ONES INCLUDED (`start >= end`: ignored since /repo "fix: RangeMocBuilder kept empty
+    input ranges") — the MOC built is VALID at the builder depth. -/
 theorem range_builder_valid (q : Qty) (w d cap : Nat) (rs : List Rng)
-    (hr : ∀ r ∈ rs, r.1 < r.2 ∧ r.2 ≤ q.nCellsMax w) :
+    (hr : ∀ r ∈ rs, r.2 ≤ q.nCellsMax w) :
     Valid q w d (fromMaxdepthRanges (q.shiftFromMax w d) cap rs) := by
-  have sem := C06.rangeBuilder_sem (q.shiftFromMax w d) cap rs (fun r h => (hr r h).1)
+  have sem := C06.rangeBuilder_sem_all (q.shiftFromMax w d) cap rs
   have hpos : 0 < 2 ^ q.shiftFromMax w d := Nat.pos_of_ne_zero (by simp)
   have hcs : q.cellSize w d = 2 ^ q.shiftFromMax w d := by simp [Qty.cellSize, Nat.shiftLeft_eq]
   have hdvd : 2 ^ q.shiftFromMax w d ∣ q.nCellsMax w := by rw [← hcs]; exact q.cellSize_dvd_nCellsMax w d
@@ -95,7 +96,7 @@ theorem range_builder_valid (q : Qty) (w d cap : Nat) (rs : List Rng)
   · rw [boundedBy_iff _ _ 0 sem.1]
     intro x hx
     obtain ⟨r, hr', y, _, y2, hxy⟩ := (sem.2 x).1 hx
-    have hy : y < q.nCellsMax w := Nat.lt_of_lt_of_le y2 (hr r hr').2
+    have hy : y < q.nCellsMax w := Nat.lt_of_lt_of_le y2 (hr r hr')
     obtain ⟨k, hk⟩ := hdvd
     rw [hk] at hy ⊢
     have h1 : y / 2 ^ q.shiftFromMax w d < k := by
